@@ -1,12 +1,19 @@
 import ChessVerif.Props.C02
 open Chess.Props.C02
-#print axioms moveNew_legal
-#print axioms moveNew_illegal
-#print axioms move_turn
-#print axioms move_full
-#print axioms move_half
-#print axioms move_castle
-#print axioms move_ep
-#print axioms castle_grid
-#print axioms move_placement_simple
-#print axioms move_partition_simple
+#print axioms moveNew_abs
+#print axioms moveNew_none_iff
+#print axioms move_placement
+#print axioms move_abs
+#print axioms move_WF
+#print axioms moveNew_abs_reachable_standard
+#print axioms moveNew_abs_reachable_parsed
+#print axioms Chess.Props.C02.moveNew_legal
+#print axioms Chess.Props.C02.moveNew_illegal
+#print axioms Chess.Props.C02.move_turn
+#print axioms Chess.Props.C02.move_full
+#print axioms Chess.Props.C02.move_half
+#print axioms Chess.Props.C02.move_castle
+#print axioms Chess.Props.C02.move_ep
+#print axioms Chess.Props.C02.castle_grid
+#print axioms Chess.Props.C02.move_placement_simple
+#print axioms Chess.Props.C02.move_partition_simple
